@@ -232,6 +232,9 @@ func c19BuildH(sc *c19Scen, history bool) *restful.Container {
 			}
 		}
 		y(sim.SiteHandler)
+		if strings.HasSuffix(req.QueryParameter("q"), "2x") || strings.HasSuffix(req.QueryParameter("q"), "4x") {
+			resp.PrettyPrint(false) // some handlers answer in the compact form
+		}
 		resp.WriteEntity(e)
 	}
 	mk := func(ws *restful.WebService, b *restful.RouteBuilder) {
